@@ -189,6 +189,7 @@ type firstObs struct {
 	closed int
 	reply  int
 	conn   net.Conn
+	first  []byte // the bytes received
 }
 
 // jsonClass: what encoding/json (through the real msg.ReadMsg) makes of the first frame:
@@ -285,6 +286,7 @@ func observeFirst(s *hx.Server, sp *firstSpec, win time.Duration) (o firstObs, e
 	}
 	_ = c.SetReadDeadline(time.Time{})
 	o.reply = classifyReply(got)
+	o.first = got
 	o.conn = c
 	return o, nil
 }
